@@ -51,6 +51,7 @@ def run(ctx) -> None:
     ctx.reuse("C13.mask", c10.aggregate_evo)
     ctx.reuse("C13.mask", c10.slots)
     ctx.reuse("C13.mask", c10.evo_member_conversion)
+    ctx.reuse("C13.mask", c10.any_rules)
     ctx.guard("C13.siblings", siblings)
     ctx.guard("C13.selection-array", selection_array)
     from .common import memo_rule
@@ -539,6 +540,8 @@ def asp_template(ctx, name: str) -> None:
     for i, idx in ((3, 0), (4, 1)):
         t = fv.res.resolve(holes[i].expr, rn.id)
         ok = isinstance(t, ast.Subscript) and from_validator(t.value, 1) and isinstance(t.slice, ast.Constant) and t.slice.value == idx
+        # grid, site = labware_position
+        ok = ok or (is_sym(t, "unpack") and from_validator(t.args[0], 1) and isinstance(t.args[1], ast.Constant) and t.args[1].value == idx)
         ctx.rep.check(ok, rule, f"{f.qualname}/{'grid' if idx == 0 else 'site'}", f"validated labware_position[{idx}]", f"the {'grid' if idx == 0 else 'site'} slot carries `{show(t)[:50]}`", where=w)
     t_arm = fv.res.resolve(holes[6].expr, rn.id)
     ctx.rep.check(is_name(t_arm, "arm"), rule, f"{f.qualname}/arm", "arm in the last slot", f"the arm slot carries `{show(t_arm)[:40]}`", where=w)
